@@ -35,17 +35,68 @@ def probe(cfg):
 
 
 def MC_RUNS(quick):
-    runs = [("MCTowerFrb", "MCTowerFrb", "p = 7: balanced exponentiation = Tower!TExp and semilinear Frobenius = Tower!TFrb on all of "
-                                         "F_p2, F_p3, lattices of F_p4/F_p6/F_p8/F_p9/F_p12/F_p18", False),
-            ("MCTowerFrb", "MCTowerFrb_p11", "p = 11 (3 mod 8, 2 mod 3: the non-dividing branch at cubic levels)", False),
-            ("MCTowerFrb", "MCTowerFrb_p13", "p = 13 (1 mod 12: every descent step taken)", False),
-            ("TowerAlg", "TowerAlg", "p = 7: Karatsuba / complex squaring in F_p2 on ALL pairs; F_p6 Karatsuba, Chung-Hasan SQR2/SQR3, "
-                                     "F_p12 Karatsuba + lazy structure, sparse products, Granger-Scott and Karabina squarings, "
-                                     "decompression on lattices / the enumerated cyclotomic subgroup", False),
-            ("TowerAlg", "TowerAlg_p11", "p = 11", False)]
+    runs = [("MCTowerFrb", "MCTowerFrb", "p = 7: balanced exponentiation = Tower!TExp, semilinear Frobenius = Tower!TFrb (p-th power) on ALL of "
+                                         "F_p2, F_p3 and lattices of F_p4/F_p6/F_p8/F_p9/F_p12/F_p18", False),
+            ("MCTowerFrb", "MCTowerFrb_p11", "p = 11 (3 mod 8; 3 does not divide p-1: g^p computed by exponentiation)", False),
+            ("TowerAlg", "TowerAlg", "p = 7, u^2 = -1, xi = 2 + u: fp2 Karatsuba / complex squaring / mul_nor on ALL 49^2 pairs; fp6 Karatsuba, "
+                                     "Chung-Hasan squaring, sparse and lazy-reduced (accumulators in [0, pR]) products on a 216 x 27 lattice; fp12 "
+                                     "Karatsuba / complex squaring / lazy / both sparse patterns on a lattice; Granger-Scott, Karabina squaring "
+                                     "and decompression on ALL Phi_12(7) = 2353 elements of the cyclotomic subgroup", False),
+            ("TowerAlg", "TowerAlg_p13", "p = 13, u^2 = -2, xi = u (the p = 5 mod 8 forms), quad/sextic/dodecic phases", False),
+            ("TowerAlg", "TowerAlg_p19", "p = 19, xi = 1 + u (the p = 3 mod 8 forms), quad/sextic/dodecic phases", False)]
     if not quick:
-        runs += [("TowerAlg", "TowerAlg_p19", "p = 19", False), ("TowerAlg", "TowerAlg_p3", "p = 3 (u^2 = -1, xi = 1 + u)", False)]
+        runs += [("MCTowerFrb", "MCTowerFrb_p13", "p = 13 (12 | p-1: every descent step)", False),
+                 ("TowerAlg", "TowerAlg_p11", "p = 11, xi = 4 + u, larger lattices, all Phi_12(11) = 14521 cyclotomic elements", False),
+                 ("TowerAlg", "TowerAlg_p13full", "p = 13, larger lattices, all Phi_12(13) = 28393 cyclotomic elements", False)]
     return runs
+
+
+TINY_PRIMES = [7, 13, 19]        # one-digit primes for which the library's own search yields towers up to degree 12
+TINY_CYC_OPS = ("back_cyc", "back_cyc_sim", "sqr_pck", "sqr_cyc", "test_cyc", "conv_cyc", "inv_cyc")
+
+
+def tiny_cases(exe, ops, rng, tier):
+    """B1: 8-bit world.  Degree 2 exhaustively (all pairs for p = 7), the cyclotomic subgroup of F_p12 densely
+    (so that the rare coefficient patterns - g2 = 0 - occur), everything else as in the large towers."""
+    quick = tier == "quick"
+    rc, out = core.sh([exe, "--dense"] + ["%x" % q for q in TINY_PRIMES], timeout=60)
+    lst = gen_fpx.parse_list(out)
+    lines, towers, admitted, tail = [], [], {}, []
+    for (_, p, q, c, xi, x3) in lst:
+        adm = [n for n in gen_fpx.admitted_levels(p, q, c, xi, x3) if n <= 12]
+        admitted["D%x" % p] = adm
+        sel = "D%x" % p
+        G = gen_fpx.Gen(sel, p, 8, rng, ops, tw=0)
+        allv = [gen_fpx.tok([a, b]) for a in range(p) for b in range(p)]
+        # degree 2: every element / every pair (p = 7) or a dense sample of pairs
+        pairs = [(a, b) for a in allv for b in allv] if p <= 7 else \
+            [(rng.choice(allv), rng.choice(allv)) for _ in range(1500 if quick else 12000)]
+        for f in ("mul", "mul_basic", "mul_integ", "add", "sub"):
+            for j, (a, b) in enumerate(pairs if f.startswith("mul") else pairs[:600]):
+                G.line("fp2_" + f, j % 5, a, b)
+        for f in ("sqr", "sqr_basic", "sqr_integ", "inv", "mul_nor", "mul_nor_basic", "mul_nor_integ", "mul_art", "neg", "dbl",
+                  "conv_cyc", "inv_cyc", "srt"):
+            for j, a in enumerate(allv):
+                G.line("fp2_" + f, j % 2, a)
+        for a in allv:
+            G.line("fp2_test_cyc", 0, a)
+            G.line("fp2_is_sqr", 0, a)
+            for k in (0, 1, 2, 3):
+                G.line("fp2_frb", 0, a, k, 1 if k == 1 else 0)
+        for n in adm:
+            if n != 2:
+                gen_fpx.gen_level(G, n, tier, scale=1.0, heavy=(n <= 6))
+        if 12 in adm:
+            # many cyclotomic elements: the coefficient patterns that are rare at 256 bits occur here
+            for j in range(150 if quick else 1500):
+                G.line("fp12_back_cyc", j % 2, ("k:" if j % 3 else "K:") + G.nonzero(12))
+                if j % 3 == 0:
+                    G.line("fp12_sqr_cyc", j % 2, "c:" + G.nonzero(12))
+                    G.line("fp12_sqr_pck", j % 2, "c:" + G.nonzero(12))
+                    G.line("fp12_back_cyc_sim", 0, 3, *["K:" + G.nonzero(12) for _ in range(3)])
+        lines += G.L
+        towers += gen_fpx.tower_lines(sel, adm)
+    return gen_fpx.spread(lines, towers) + tail, admitted
 
 
 def _count_ops(ev, label, events):
@@ -74,7 +125,7 @@ def cases_for(cfg, lst, ops, rng, tier):
                 gen_fpx.gen_level(G, n, tier, scale=1.0)
         for n in HIGH_LEVELS + ([] if quick else SWEEP_LEVELS):
             if n in adm:
-                gen_fpx.gen_level(G, n, tier, scale=0.5 if n <= 24 else 0.2, heavy=(not quick and n <= 24))
+                gen_fpx.gen_level(G, n, tier, scale=0.3 if n <= 24 else 0.15, heavy=(not quick and n <= 24))
         lines += G.L
         tail += G.tail
         towers += gen_fpx.tower_lines(sel, [n for n in adm if n <= (24 if quick else 54)])
@@ -95,9 +146,9 @@ def cases_for(cfg, lst, ops, rng, tier):
         G = gen_fpx.Gen(sel, p, wbits, rng, ops, tw=0)
         for n in adm:
             if n in (2, 3):
-                gen_fpx.gen_level(G, n, tier, scale=0.5)
+                gen_fpx.gen_level(G, n, tier, scale=0.3 if quick else 1.0)
             elif n <= 12 and (not quick or n <= 6):
-                gen_fpx.gen_level(G, n, tier, scale=0.25, heavy=not quick)
+                gen_fpx.gen_level(G, n, tier, scale=0.15 if quick else 0.5, heavy=not quick)
         lines += G.L
         tail += G.tail
         towers += gen_fpx.tower_lines(sel, [n for n in adm if n <= (6 if quick else 12)])
@@ -116,7 +167,7 @@ def run(tier, seed):
                       "prepared by the library and read back raw; for every operation, algorithm variant and alias pattern the level "
                       "offers; Frobenius powers 0..degree+1 and 2*degree; exponents 0, +-1, +-2, small, 64-bit, p, -p, random full size; "
                       "an event is non-trivial when an operand has at least two non-zero coefficients; distinct by full event")
-    core.run_models(ev, MC_RUNS(quick))
+    core.run_models(ev, MC_RUNS(quick), parallel=5 if quick else 4)
     conf = core.Conformance("C10", ev, wd)
     builds = ["std256"] + ([] if quick else ["b12-381"])
     ev.cov["towers"] = {}
@@ -131,7 +182,17 @@ def run(tier, seed):
         "which levels are fields for a prime is decided by the specification (tower events); levels the library's constants do not "
         "make a field (e.g. xi = 4 + u on NIST P-256) are not driven",
         "ARITH=easy (portable C back-end) only; FPX_QDR/CBC=INTEG, FPX_RDC=LAZYR defaults with every variant called by name",
-        "tiny 8-bit worlds are not used: the tower constants of the fpx module are tuned per FP_PRIME size"]
+        "8-bit world (w8p8): p = 7, 13, 19 - the one-digit primes for which fp_prime_set_dense's own search yields towers "
+        "up to degree 12; exponentiations of cyclotomic elements are not driven there (they decompress internally and "
+        "meet the recorded decompression finding with probability 1/p^2 per step)"]
+    # B1: the 8-bit world (fp_prime_set_dense on one-digit primes whose towers the library's own search completes)
+    exe8 = core.cc_harness("w8p8", "fpx", DRV)
+    rc, out = core.sh([exe8, "--ops"], timeout=60)
+    cases, admitted = tiny_cases(exe8, gen_fpx.parse_ops(out), rng, tier)
+    ev.cov["towers"]["w8p8"] = admitted
+    events, _ = conf.run("w8p8", "w8p8", "fpx", DRV, cases, SPEC, nontrivial=nontrivial, min_per_shard=500, tlc_timeout=2400)
+    _count_ops(ev, "w8p8", events)
+    # B2: the shipped configurations
     for cfg in builds:
         lst, ops = probe(cfg)
         cases, admitted = cases_for(cfg, lst, ops, rng, tier)
